@@ -23,10 +23,7 @@ QUAD_SER = ("nquads", "trig", "trix", "jsonld", "hext", "patch")
 QUAD_PAR = ("nquads", "trig", "trix", "jsonld", "hext", "patch")
 
 
-def run(repo: Repo, rep: Report) -> None:
-    rep.extra["explanation"] = EXPLANATION
-    typed = repo.typed
-
+def _rule_a(repo: Repo, rep: Report) -> None:
     # ------------------------------------------------------------------ (a)
     rep.rule("C06.a-no-context-folding",
              "in a quad serializer, a graph-to-graph copy (`X += g`, X.addN/add in a loop over g) whose data comes from the loop "
@@ -80,6 +77,8 @@ def run(repo: Repo, rep: Report) -> None:
     if n_loops < 3:
         raise AnalysisError("expected >= 3 context enumerations in quad serializers, found %d" % n_loops)
 
+
+def _rule_b(repo: Repo, rep: Report) -> None:
     # ------------------------------------------------------------------ (b)
     rep.rule("C06.b-graph-names-by-identity",
              "in quad serializers and quad parsers, a graph or graph name that may be None is tested by identity, never by truthiness", floor=2)
@@ -97,6 +96,8 @@ def run(repo: Repo, rep: Report) -> None:
                 rep.instances[before:] = kept
                 rep.findings[:] = [x for x in rep.findings if x not in dropped]
 
+
+def _rule_b2(repo: Repo, rep: Report) -> None:
     # (b2) optional keyword arguments that are graphs by use
     rep.rule("C06.b2-untyped-graph-arguments-by-identity",
              "a value read from **kwargs (untyped) that is used as a graph (operand of +/- with the store, receiver of "
@@ -147,6 +148,8 @@ def run(repo: Repo, rep: Report) -> None:
                     if isinstance(n, ast.Compare) and isinstance(n.left, ast.Name) and n.left.id == v and isinstance(n.ops[0], (ast.Is, ast.IsNot)):
                         rep.ob("C06.b2-untyped-graph-arguments-by-identity", mod, q, n, True, "%s tested by identity" % v, node=n)
 
+
+def _rule_c(repo: Repo, rep: Report) -> None:
     # ------------------------------------------------------------------ (c)
     rep.rule("C06.c-trix-graph-state-reset",
              "TriXHandler: the current-graph attribute that start handlers lazily create (`if self.graph is None: self.graph = Graph(...)`) "
@@ -172,28 +175,60 @@ def run(repo: Repo, rep: Report) -> None:
         rep.ob("C06.c-trix-graph-state-reset", tx, "TriXHandler.endElementNS", "%s = None at </graph>" % attr, ok,
                "reset when the graph element ends" if ok else "%s survives the end of a graph element: the triples of a following unnamed graph land in the previous graph" % attr, node=end)
 
+
+def _rule_d(repo: Repo, rep: Report) -> None:
+    typed = repo.typed
     # ------------------------------------------------------------------ (d)
     rep.rule("C06.d-patch-delete-is-graph-scoped",
              "RDF Patch parser: every removal addresses one graph view (get_context(name) / default_context), never the dataset "
-             "object itself (Dataset.remove with no graph removes from every graph)", floor=1)
+             "object itself (Dataset.remove with no graph removes from every graph). A removal is any call whose callee can evaluate to the bound method `remove` of "
+             "some object - X.remove(...), getattr(X, m)(...) with m a string that can be 'remove' (a constant, a local, a row of a constant table a loop runs over), "
+             "a local or conditional expression that holds such a bound method - and the object is every expression X can hold the value of (all definitions of a "
+             "local, both arms of a conditional expression, what a method of the parser called for it returns): each of them is a graph view or is not a dataset", floor=1)
+    from vlib import h_c06 as H
+
     pp = repo.mod("rdflib.plugins.parsers.patch")
+
+    def is_view(x: ast.AST) -> bool:
+        return (isinstance(x, ast.Attribute) and x.attr == "default_context") or (
+            isinstance(x, ast.Call) and isinstance(x.func, ast.Attribute) and x.func.attr in ("get_context", "graph"))
+
+    def is_dataset(x: ast.AST) -> bool:
+        tf = typed.type_of(pp.name, x)
+        return (tf is not None and any(typed.is_subclass(i, "rdflib.graph.ConjunctiveGraph") for i in tf.items)) or norm(x) in ("self.sink",)
+
     nrem = 0
     for q, f in pp.functions():
-        for c in own_nodes(f):
-            if isinstance(c, ast.Call) and isinstance(c.func, ast.Attribute) and c.func.attr == "remove":
-                tf = typed.type_of(pp.name, c.func.value)
-                recv = norm(c.func.value)
-                if tf is None and "sink" not in recv and "context" not in recv:
-                    continue
+        if "." in q and isinstance(pp.defs.get(q.rsplit(".", 1)[0]), ast.FunctionDef):
+            continue  # (a nested function is looked at with the function it stands in)
+        cls = q.rsplit(".", 1)[0] if "." in q and isinstance(pp.defs.get(q.rsplit(".", 1)[0]), ast.ClassDef) else None
+        flow = H.Flow(pp, f)
+        for c, recv, names in H.method_calls(pp, f, flow):
+            # every expression the receiver can hold the value of (a call of a method of this parser stands for what that method returns)
+            held: list[ast.AST] = []
+            for x in flow.values(recv):
+                inner = H.returned_values(pp, cls, x) if isinstance(x, ast.Call) and not is_view(x) else None
+                held += [v for v, _fl in inner] if inner is not None else [x]
+            if names is None:
+                # the method is chosen by a string that is not known here: undecidable if the object can be the dataset
+                if any(is_dataset(x) and not is_view(x) for x in held):
+                    raise AnalysisError("RDF Patch parser: %s in %s calls a method of the dataset that is chosen by a string the analysis cannot determine" % (norm(c)[:80], q))
+                continue
+            if "remove" not in names:
+                continue
+            tf = typed.type_of(pp.name, recv)
+            if tf is None and not any(typed.type_of(pp.name, x) is not None or "sink" in norm(x) or "context" in norm(x) for x in [recv] + held):
+                continue  # (not an rdflib object: list.remove ...)
+            for x in held:
                 nrem += 1
-                is_ds = (tf is not None and any(typed.is_subclass(i, "rdflib.graph.ConjunctiveGraph") for i in tf.items)) or recv in ("self.sink",)
-                view = recv.endswith(".default_context") or ".get_context(" in recv or ".graph(" in recv
-                ok = view or not is_ds
-                rep.ob("C06.d-patch-delete-is-graph-scoped", pp, q, c, ok,
-                       "removes from one graph view" if ok else "removes through the dataset object %s: a delete row without a graph name removes the triple from every graph" % recv, node=c)
+                ok = is_view(x) or not is_dataset(x)
+                rep.ob("C06.d-patch-delete-is-graph-scoped", pp, q, c if x is getattr(c.func, "value", None) else "%s [on %s]" % (norm(c)[:160], norm(x)[:100]), ok,
+                       "removes from one graph view" if ok else "removes through the dataset object %s: a delete row without a graph name removes the triple from every graph" % norm(x), node=c)
     if nrem < 1:
         raise AnalysisError("RDF Patch parser: expected a remove site, found %d" % nrem)
 
+
+def _rule_e(repo: Repo, rep: Report) -> None:
     # ------------------------------------------------------------------ (e)
     rep.rule("C06.e-trig-graph-label-is-a-reference",
              "TriG serializer: the Turtle writer abbreviates a blank node as `[ ... ]` when its reference count is at most 1 (p_squared); a blank node that "
@@ -258,7 +293,12 @@ def _assigned_unconditionally_before(loop: ast.For, name: str, site: ast.AST) ->
 
 from vlib.core import layer as _layer  # noqa: E402
 
-_run_base = run
+
+def _run_base(repo: Repo, rep: Report) -> None:
+    """rules a-e, each a layer of its own: a rule that loses its anchor (on the tree or on one equivalent view) is judged alone"""
+    rep.extra["explanation"] = EXPLANATION
+    for f in (_rule_a, _rule_b, _rule_b2, _rule_c, _rule_d, _rule_e):
+        _layer(rep, f, repo)
 
 
 def run(repo: Repo, rep: Report) -> None:  # noqa: F811
